@@ -20,6 +20,8 @@ import (
 
 type Opts struct {
 	Sync, Time, Unix, Yield, Copy, Go, Chan bool
+	YieldLoops                              bool // preemption points only at function entries and loop heads
+	Load                                    bool // packages.Load -> verifload.Load (memoised loading)
 }
 
 func ParseOpts(s string) (Opts, error) {
@@ -40,6 +42,10 @@ func ParseOpts(s string) (Opts, error) {
 			o.Go = true
 		case "chan":
 			o.Chan = true
+		case "yieldloops":
+			o.YieldLoops = true
+		case "load":
+			o.Load = true
 		case "":
 		default:
 			return o, fmt.Errorf("unknown instr option %q", f)
@@ -136,6 +142,47 @@ func File(path string, o Opts) ([]byte, error) {
 			}
 			return true
 		})
+	}
+	if o.YieldLoops {
+		y := func(pos token.Pos) ast.Stmt {
+			return &ast.ExprStmt{X: &ast.CallExpr{Fun: sel("csched", "Yield"), Args: []ast.Expr{&ast.BasicLit{Kind: token.STRING, Value: strconv.Quote(site(pos))}}}}
+		}
+		ast.Inspect(f, func(n ast.Node) bool {
+			switch b := n.(type) {
+			case *ast.FuncDecl:
+				if b.Body != nil {
+					b.Body.List = append([]ast.Stmt{y(b.Pos())}, b.Body.List...)
+					needCsched = true
+				}
+			case *ast.FuncLit:
+				b.Body.List = append([]ast.Stmt{y(b.Pos())}, b.Body.List...)
+				needCsched = true
+			case *ast.ForStmt:
+				b.Body.List = append([]ast.Stmt{y(b.Pos())}, b.Body.List...)
+				needCsched = true
+			case *ast.RangeStmt:
+				b.Body.List = append([]ast.Stmt{y(b.Pos())}, b.Body.List...)
+				needCsched = true
+			}
+			return true
+		})
+	}
+	if o.Load {
+		changed := false
+		ast.Inspect(f, func(n ast.Node) bool {
+			if c, ok := n.(*ast.CallExpr); ok {
+				if se, ok := c.Fun.(*ast.SelectorExpr); ok {
+					if id, ok := se.X.(*ast.Ident); ok && id.Name == "packages" && se.Sel.Name == "Load" {
+						c.Fun = sel("verifload", "Load")
+						changed = true
+					}
+				}
+			}
+			return true
+		})
+		if changed {
+			astutil.AddNamedImport(fset, f, "verifload", "verif/verifload")
+		}
 	}
 	if needCsched {
 		astutil.AddNamedImport(fset, f, "csched", cschedPath)
